@@ -294,6 +294,7 @@ func Mirror(tx *bbolt.Tx, s *Stores) []Violation {
 	notes := subBucketNames(rawPath(tx, rootBucket, StNotes))
 	tickets := subBucketNames(rawPath(tx, rootBucket, StTickets))
 	groups := subBucketNames(rawPath(tx, rootBucket, StGroups))
+	memos := subBucketNames(rawPath(tx, rootBucket, StMemos))
 
 	// --- unique + set indexes (C03)
 	holders := func(store string, ids []string, field string, sub ...string) map[string][]string {
@@ -332,6 +333,7 @@ func Mirror(tx *bbolt.Tx, s *Stores) []Violation {
 	m.checkBackrefs("badges.owner->people.badges", StPeople, "badges", people, refsOf(StBadges, badges, "owner"), true)
 	m.checkBackrefs("notes.about->people", StPeople, "", people, refsOf(StNotes, notes, "about"), false)
 	m.checkBackrefs("tickets.assignee->people", StPeople, "", people, refsOf(StTickets, tickets, "assignee"), false)
+	m.checkBackrefs("memos.topic->groups", StGroups, "", groups, refsOf(StMemos, memos, "topic"), false)
 	for _, id := range people {
 		if v, _ := rawString(rawPath(tx, rootBucket, StPeople, id), "dept"); v == "" {
 			m.bad("C04", "fk-null-nonnullable:people.dept", "person %q stored with empty non-nullable dept", id)
@@ -517,6 +519,7 @@ func CompareModel(tx *bbolt.Tx, s *Stores, m *Model, universe map[string][]strin
 		StDepts: subBucketNames(rawPath(tx, rootBucket, StDepts)), StPeople: subBucketNames(rawPath(tx, rootBucket, StPeople)),
 		StBadges: subBucketNames(rawPath(tx, rootBucket, StBadges)), StNotes: subBucketNames(rawPath(tx, rootBucket, StNotes)),
 		StTickets: subBucketNames(rawPath(tx, rootBucket, StTickets)), StGroups: subBucketNames(rawPath(tx, rootBucket, StGroups)),
+		StMemos: subBucketNames(rawPath(tx, rootBucket, StMemos)),
 	}
 	modelIds := map[string][]string{}
 	for id := range m.Depts {
@@ -537,11 +540,15 @@ func CompareModel(tx *bbolt.Tx, s *Stores, m *Model, universe map[string][]strin
 	for id := range m.Groups {
 		modelIds[StGroups] = append(modelIds[StGroups], id)
 	}
+	for id := range m.Memos {
+		modelIds[StMemos] = append(modelIds[StMemos], id)
+	}
 	presenceProps := map[string][]string{
 		StDepts: {"C04", "C06", "C07"}, StPeople: {"C04", "C06", "C07", "C15"}, StBadges: {"C04", "C06", "C07"},
 		StNotes: {"C04", "C06", "C07"}, StTickets: {"C04", "C06", "C07"}, StGroups: {"C05", "C06", "C07"},
+		StMemos: {"C04", "C06", "C07"},
 	}
-	for _, st := range []string{StDepts, StPeople, StBadges, StNotes, StTickets, StGroups} {
+	for _, st := range []string{StDepts, StPeople, StBadges, StNotes, StTickets, StGroups, StMemos} {
 		if !sameSet(present[st], modelIds[st]) {
 			a := append([]string(nil), present[st]...)
 			b := append([]string(nil), modelIds[st]...)
@@ -583,7 +590,7 @@ func CompareModel(tx *bbolt.Tx, s *Stores, m *Model, universe map[string][]strin
 					} else {
 						props = []string{"C06", "C07", "C15"}
 					}
-				case StBadges, StNotes, StTickets:
+				case StBadges, StNotes, StTickets, StMemos:
 					props = []string{"C04", "C07"}
 				case StDepts:
 					props = []string{"C03", "C07"}
